@@ -208,7 +208,7 @@ def fault_classes(runner) -> List[str]:
     """Class labels from what the episode actually did (measured from the observation log)."""
     kinds = set()
     for rec in runner.world.log:
-        if rec[1] in ('crash', 'cut', 'heal', 'interleaved', 'dropped', 'swallowed', 'exit', 'boot_refused'):
+        if rec[1] in ('crash', 'cut', 'cut_oneway', 'heal', 'interleaved', 'dropped', 'swallowed', 'exit', 'boot_refused'):
             kinds.add(rec[1])
     for t, op in runner.op_log:
         if op[0] == 'restart':
